@@ -17,7 +17,10 @@
 (***************************************************************************)
 EXTENDS Integers, Sequences, FiniteSets, TLC
 
-CONSTANTS FixLostTail
+CONSTANTS FixLostTail,
+          MismatchResync   \* TRUE: an answer whose ack index differs from the sent index (the follower did not append:
+                           \* wrong position or its write failed) puts the replicator into the failure state, the next
+                           \* iteration handshakes; FALSE (before the repair): the channel stays ready and goes on sending
 
 VARIABLES
   lLog, lA, lQ,        \* leader log: [pos -> id], appended, queue-wide acknowledged
@@ -87,7 +90,7 @@ HandshakeStep(rpcfail) ==
   /\ stream' = IF st' = "ready" THEN "open" ELSE "none"
   /\ aligned' = (aligned \/ st' = "ready" \/ rpcfail = "connect")
 
-\* ---- one replication round; fault: "none" | "send" | "recv"
+\* ---- one replication round; fault: "none" | "send" | "recv" | "fput"
 Step(fault) ==
   /\ st = "ready" /\ stream \in {"open", "broken"} /\ cons < lA
   /\ LET seq == cons + 1 IN
@@ -98,13 +101,16 @@ Step(fault) ==
                /\ UNCHANGED <<fLog, fA, st, stream>>
           ELSE IF fault = "send" \/ stream = "broken"
           THEN /\ st' = "fail" /\ stream' = "none" /\ UNCHANGED <<fLog, fA, gack>>
-          ELSE LET applied == (seq = fA + 1)
-                   resp == IF applied THEN seq ELSE fA + 1
+          ELSE \* fault "fput": the follower is at the right position but its Queue.Put fails (answer: ack index -1 + error)
+               LET applied == (seq = fA + 1) /\ fault # "fput"
+                   resp == IF seq = fA + 1 THEN (IF fault = "fput" THEN -1 ELSE seq) ELSE fA + 1
                IN /\ IF applied THEN fLog' = Put1(fLog, seq, lLog[seq]) /\ fA' = fA + 1
                                 ELSE UNCHANGED <<fLog, fA>>
                   /\ IF fault = "recv"
                        THEN st' = "fail" /\ stream' = "none" /\ UNCHANGED gack
-                       ELSE /\ UNCHANGED <<st, stream>>
+                       ELSE /\ IF resp # seq /\ MismatchResync
+                                 THEN st' = "fail" /\ stream' = "none"
+                                 ELSE UNCHANGED <<st, stream>>
                             /\ gack' = IF resp = seq THEN AckTo(seq, seq, gack) ELSE gack
   /\ UNCHANGED <<lLog, lA, lQ, fQ, aligned>>
 
